@@ -141,6 +141,14 @@ func (h *histRun) snapshot() (*snapshot, error) {
 	if err := copyTree(h.w.root, dir, nil); err != nil {
 		return nil, err
 	}
+	if len(h.p.Exts) > 0 {
+		// the module cache (and whatever an interrupted fetch left in the temp directory) is
+		// state that survives a process too
+		os.RemoveAll(dir + ".home")
+		if err := copyTree(h.w.home, dir+".home", nil); err != nil {
+			return nil, err
+		}
+	}
 	return &snapshot{dir: dir, logLen: len(h.w.log), evLen: len(h.w.events), seq: h.w.seq}, nil
 }
 
@@ -148,6 +156,13 @@ func (h *histRun) restore(s *snapshot) error {
 	os.RemoveAll(h.w.root)
 	if err := copyTree(s.dir, h.w.root, nil); err != nil {
 		return err
+	}
+	if _, err := os.Stat(s.dir + ".home"); err == nil {
+		os.RemoveAll(h.w.home)
+		if err := copyTree(s.dir+".home", h.w.home, nil); err != nil {
+			return err
+		}
+		os.MkdirAll(filepath.Join(h.w.home, "tmp"), 0755)
 	}
 	h.w.log = h.w.log[:s.logLen]
 	h.w.events = h.w.events[:s.evLen]
@@ -185,8 +200,8 @@ type boundary struct {
 }
 
 func isEffect(kind string) bool {
-	if strings.HasPrefix(kind, "body") {
-		return true
+	if strings.HasPrefix(kind, "body") || strings.HasPrefix(kind, "net.fetch") {
+		return true // (net.fetch: between two files of a checkout that is being written)
 	}
 	switch kind {
 	case "os.create", "os.createtemp", "os.write", "os.write2", "os.close", "os.rename", "os.mkdirall", "os.mkdir", "os.remove", "os.removeall", "os.mkdirtemp":
